@@ -289,12 +289,64 @@ def _exclusive(order, a, b):
     return False
 
 
+_SA_LOCALS = {}
+
+
+def _single_assignment_locals(f):
+    """Locals of f that are initialised at their declaration and never assigned again: id -> VarDecl."""
+    key = id(f.node)
+    if key not in _SA_LOCALS:
+        decls, assigned = {}, set()
+        for x in walk(f.node):
+            k = x.get('kind')
+            if k == 'VarDecl' and x.get('id') and [y for y in children(x) if not y['kind'].endswith('Attr')]:
+                decls[x['id']] = x
+            elif (k in ('BinaryOperator', 'CompoundAssignOperator') and (x.get('opcode') or '').endswith('=')
+                  and x.get('opcode') not in ('==', '!=', '<=', '>=')) or \
+                    (k == 'UnaryOperator' and x.get('opcode') in ('++', '--')):
+                l = strip(children(x)[0], explicit=True)
+                if l.get('kind') == 'DeclRefExpr':
+                    assigned.add((l.get('referencedDecl') or {}).get('id'))
+            elif k == 'CXXOperatorCallExpr' and len(children(x)) > 1:
+                nm = (strip(children(x)[0]).get('referencedDecl') or {}).get('name') or ''
+                if nm.endswith('=') and nm not in ('operator==', 'operator!=', 'operator<=', 'operator>='):
+                    l = strip(children(x)[1], explicit=True)
+                    if l.get('kind') == 'DeclRefExpr':
+                        assigned.add((l.get('referencedDecl') or {}).get('id'))
+        _SA_LOCALS[key] = {i: d for i, d in decls.items() if i not in assigned}
+    return _SA_LOCALS[key]
+
+
+def _cond_nodes(f, cond, pos=None, lo=None, hi=None, depth=0):
+    """Nodes of a condition with every single-assignment local it names replaced by (joined with) the
+    nodes of that local's initialiser: `const bool found = db.rows_modified() != 0; if (!found)` tests
+    rows_modified() where the flag is initialised.  With pos/lo/hi the initialiser must be evaluated
+    strictly between those positions (the value is read at the declaration, not at the test)."""
+    out = list(walk(cond))
+    if depth >= 3:
+        return out
+    sa = _single_assignment_locals(f)
+    for x in list(out):
+        if x.get('kind') != 'DeclRefExpr':
+            continue
+        d = sa.get((x.get('referencedDecl') or {}).get('id'))
+        if d is None:
+            continue
+        if pos is not None:
+            at = pos.get(id(d))
+            if at is None or (lo is not None and at <= lo) or (hi is not None and at >= hi):
+                continue
+        init = [y for y in children(d) if not y['kind'].endswith('Attr')][-1]
+        out += _cond_nodes(f, init, pos, lo, hi, depth + 1)
+    return out
+
+
 def _helper_tests_rows(t):
     for n in walk(t.body):
         if n.get('kind') != 'IfStmt':
             continue
         c = children(n)
-        names = [strip(children(x)[0]).get('name') for x in walk(c[0]) if x.get('kind') == 'CXXMemberCallExpr']
+        names = [strip(children(x)[0]).get('name') for x in _cond_nodes(t, c[0]) if x.get('kind') == 'CXXMemberCallExpr']
         if 'rows_modified' in names and (_throws(c[1]) or (len(c) > 2 and _throws(c[2])) or
                                          any(_throws(a) for a in children(t.body)[-1:])):
             return True
@@ -327,7 +379,8 @@ def _rows_test_after(f, eff, site, cg=None):
         if any(id(site.node) == id(x) for x in walk(n)):
             continue
         c = children(n)
-        names = [strip(children(x)[0]).get('name') for x in walk(c[0]) if x.get('kind') == 'CXXMemberCallExpr']
+        names = [strip(children(x)[0]).get('name') for x in _cond_nodes(f, c[0], pos, at, limit)
+                 if x.get('kind') == 'CXXMemberCallExpr']
         if 'rows_modified' not in names:
             continue
         if _throws(c[1]):
